@@ -249,6 +249,12 @@ def _decode_writes(sends):
     return out
 
 
+def _Cancelled():
+    import anyio
+
+    return anyio.get_cancelled_exc_class()
+
+
 def _script_of(events):
     script = []
     for e in events:
@@ -267,11 +273,14 @@ def _script_of(events):
     return script
 
 
-def _open_client(mod, api):
-    """the three public ways to get a stdio connection; returns (context manager, get(entered) -> (client, read, write))"""
+def _open_client(mod, api, server=None):
+    """the public ways to get a stdio connection; returns (context manager, get(entered) -> (client, read, write)).
+    `server`: non-default options of the connection ({"env": {...}, "args": [...], "init": {kwargs of
+    stdio_client_with_initialize}})"""
     from chuk_mcp.transports.stdio.parameters import StdioParameters
 
-    params = StdioParameters(command="verif-fake-child", args=[])
+    server = server or {}
+    params = StdioParameters(command="verif-fake-child", args=list(server.get("args", [])), env=server.get("env"))
     if api == "function":  # stdio_client(): only the two streams are handed out
         cm = mod.stdio_client(params)
 
@@ -279,7 +288,7 @@ def _open_client(mod, api):
             return None, entered[0], entered[1]
         return cm, get
     if api == "with_initialize":  # stdio_client_with_initialize(): a real handshake, the client object stays hidden
-        cm = mod.stdio_client_with_initialize(params, timeout=5.0)
+        cm = mod.stdio_client_with_initialize(params, **dict({"timeout": 5.0}, **server.get("init", {})))
 
         async def get(entered):
             return None, entered[0], entered[1]
@@ -397,15 +406,15 @@ async def _reader_case(mod, holder, case):
     opts = case.get("opts", {})
     entered = False
     try:
-        cm, get = _open_client(mod, opts.get("api", "client"))
+        cm, get = _open_client(mod, opts.get("api", "client"), case.get("server"))
         n = int(opts.get("sessions", 1))
         obs_all = []
         for _ in range(n):
             if opts.get("api") == "function" and obs_all:
-                cm, get = _open_client(mod, "function")  # a generator-based context manager is single-use
+                cm, get = _open_client(mod, "function", case.get("server"))  # a generator-based context manager is single-use
             obs_all.append(await _reader_session(mod, holder, case, cm, get))
         entered = True
-    except Exception as ex:  # noqa
+    except (Exception, _Cancelled()) as ex:  # noqa (a crashed task of the client cancels the host task too)
         return {"harness_error": type(ex).__name__, "entered": entered}
     o = obs_all[-1]
     if len(obs_all) > 1:
@@ -441,7 +450,7 @@ async def _writer_case(mod, holder, case, build):
     proc.stdout._next = _wait_forever  # type: ignore[method-assign]
     holder["proc"] = proc
     try:
-        cm, get = _open_client(mod, case.get("api", "client"))
+        cm, get = _open_client(mod, case.get("api", "client"), case.get("server"))
         async with cm as entered:
             client, _read, write = await get(entered)
             proc.client = client
@@ -463,7 +472,7 @@ async def _writer_case(mod, holder, case, build):
                 await anyio.sleep(1.0)
             after = {"closed": proc.stdin.closed, "sends_at_close": proc.stdin.sends_at_close}
             sends = list(proc.stdin.sends)
-    except Exception as ex:  # noqa
+    except (Exception, _Cancelled()) as ex:  # noqa (a crashed task of the client cancels the host task too)
         return {"harness_error": type(ex).__name__}
     return {"bytes": b"".join(sends).hex(), "sends": len(sends), "before_close": before_close, "after_close": after, "late": late}
 
@@ -506,7 +515,7 @@ async def _duplex_case(mod, holder, case, build):
     holder["proc"] = proc
     delivered = []
     try:
-        cm, get = _open_client(mod, case.get("api", "client"))
+        cm, get = _open_client(mod, case.get("api", "client"), case.get("server"))
         async with cm as entered:
             client, read, write = await get(entered)
             proc.client = client
@@ -528,9 +537,127 @@ async def _duplex_case(mod, holder, case, build):
                 after = {"closed": proc.stdin.closed, "sends_at_close": proc.stdin.sends_at_close}
                 sends = list(proc.stdin.sends)
                 tg.cancel_scope.cancel()
-    except Exception as ex:  # noqa
+    except (Exception, _Cancelled()) as ex:  # noqa (a crashed task of the client cancels the host task too)
         return {"harness_error": type(ex).__name__}
     return {"sends": sends, "before_close": before_close, "after_close": after, "delivered": len(delivered)}
+
+
+def debug_logging():
+    """a host that configured logging at DEBUG (every `logger.debug(...)` / `isEnabledFor(DEBUG)` branch live;
+    records go to a NullHandler); returns the restore function"""
+    import logging
+
+    root = logging.getLogger()
+    prev_disable, prev_level, prev_handlers = root.manager.disable, root.level, list(root.handlers)
+    root.handlers[:] = [logging.NullHandler()]
+    root.setLevel(logging.DEBUG)
+    logging.disable(logging.NOTSET)
+
+    def restore():
+        logging.disable(prev_disable)
+        root.setLevel(prev_level)
+        root.handlers[:] = prev_handlers
+    return restore
+
+
+def run_prelude(names):
+    """Earlier, unrelated use of the same process (HARDEN2 class B): calls that must leave nothing behind."""
+    import io
+
+    from chuk_mcp.protocol import fast_json
+
+    v = {"b": [1, {"z": None, "a": "\u00e9"}], "a": {"k": "v"}}
+    for n in names:
+        try:
+            if n == "dumps-indent":
+                fast_json.dumps(v, indent=2)
+            elif n == "dumps-sort_keys":
+                fast_json.dumps(v, sort_keys=True)
+            elif n == "dumps-all":
+                fast_json.dumps(v, indent=4, sort_keys=True, ensure_ascii=False, separators=(",", ": "), default=str)
+            elif n == "dumps-default":
+                fast_json.dumps({"o": object()}, default=str)
+            elif n == "dumps-fails":
+                fast_json.dumps({"o": object()})
+            elif n == "dump-indent":
+                fast_json.dump(v, io.BytesIO(), indent=2)
+            elif n == "dump-sort_keys":
+                fast_json.dump(v, io.BytesIO(), sort_keys=True)
+            elif n == "loads":
+                fast_json.loads('{"a": [1, 2, {"b": null}]}')
+                fast_json.loads("not json")
+            elif n == "server-format":  # the server side of the same process pretty-prints dict tool results
+                from chuk_mcp.server.server import MCPServer
+
+                srv = MCPServer("verif")
+                srv._format_content({"a": 1, "b": [1, 2]})
+            elif n == "batch-selftest":
+                import contextlib
+
+                from chuk_mcp.protocol.features import batching
+                with contextlib.redirect_stdout(io.StringIO()):
+                    batching.test_version_batching_scenarios()
+        except Exception:  # noqa: a failing earlier call is part of the scenario
+            pass
+
+
+async def _wrapped(fn, case):
+    """one case with its process-level conditions: DEBUG logging, an earlier use of the process"""
+    restore = debug_logging() if case.get("debug") else None
+    try:
+        if case.get("prelude"):
+            run_prelude(case["prelude"])
+        return await fn(case)
+    finally:
+        if restore is not None:
+            restore()
+
+
+async def _run_all(cases, fn):
+    """cases in order; consecutive cases carrying the same truthy "conc" tag run CONCURRENTLY in one event loop
+    (several live client objects, equal ids / keys on different connections)"""
+    import anyio
+
+    out = [None] * len(cases)
+    i = 0
+    while i < len(cases):
+        tag = cases[i].get("conc")
+        j = i + 1
+        if tag:
+            while j < len(cases) and cases[j].get("conc") == tag:
+                j += 1
+        if j - i == 1 and cases[i].get("with"):
+            # self-contained concurrency: the case runs together with the sibling cases it carries; only its own
+            # observation is kept (so a replay of this one case reproduces the situation)
+            sib = list(cases[i]["with"])
+            res = [None] * (1 + len(sib))
+            restore = debug_logging() if cases[i].get("debug") else None
+            try:
+                async def one_w(k, c):
+                    res[k] = await fn(c)
+                async with anyio.create_task_group() as tg:
+                    tg.start_soon(one_w, 0, {k: v for k, v in cases[i].items() if k != "with"})
+                    for k, c in enumerate(sib):
+                        tg.start_soon(one_w, k + 1, c)
+            finally:
+                if restore is not None:
+                    restore()
+            out[i] = res[0]
+        elif j - i == 1:
+            out[i] = await _wrapped(fn, cases[i])
+        else:
+            restore = debug_logging() if any(c.get("debug") for c in cases[i:j]) else None
+            try:
+                async def one(k):
+                    out[k] = await fn(cases[k])
+                async with anyio.create_task_group() as tg:
+                    for k in range(i, j):
+                        tg.start_soon(one, k)
+            finally:
+                if restore is not None:
+                    restore()
+        i = j
+    return out
 
 
 def _patched(mod, holder):
@@ -560,10 +687,7 @@ def run_reader_cases(cases):
     holder = {}
 
     async def main():
-        out = []
-        for c in cases:
-            out.append(await _reader_case(mod, holder, c))
-        return out
+        return await _run_all(cases, lambda c: _reader_case(mod, holder, c))
 
     saved = _patched(mod, holder)
     try:
@@ -684,7 +808,7 @@ async def _exit_case(mod, holder, case):
     holder["proc"] = proc
     entered = False
     try:
-        cm, _ = _open_client(mod, "with_initialize" if case["entry"] == "init" else "function")
+        cm, _ = _open_client(mod, "with_initialize" if case["entry"] == "init" else "function", case.get("server"))
         async with cm:
             entered = True
             raise build_exc(case["exc"])
@@ -703,7 +827,7 @@ def run_exit_cases(cases):
     holder = {}
 
     async def main():
-        return [await _exit_case(mod, holder, c) for c in cases]
+        return [await _wrapped(lambda c: _exit_case(mod, holder, c), c) for c in cases]
 
     saved = _patched(mod, holder)
     try:
@@ -731,7 +855,7 @@ def run_duplex_cases(cases, build):
             async def main(idx=idx):
                 res = []
                 for i in idx:
-                    res.append(await _duplex_case(mod, holder, cases[i], build))
+                    res.append(await _wrapped(lambda c: _duplex_case(mod, holder, c, build), cases[i]))
                 return res
 
             for i, r in zip(idx, vloop.run(main, tie=tie)):
@@ -749,10 +873,7 @@ def run_writer_cases(cases, build):
     holder = {}
 
     async def main():
-        out = []
-        for c in cases:
-            out.append(await _writer_case(mod, holder, c, build))
-        return out
+        return await _run_all(cases, lambda c: _writer_case(mod, holder, c, build))
 
     saved = _patched(mod, holder)
     try:
